@@ -360,22 +360,31 @@ func (c *Ctx) bocHeaderAgreement() {
 	// reader: calls readNBytesUIntFromArray(width, boc) in order with width role sizeBytes/offsetBytes
 	var sizeV, offV ssa.Value
 	// the size width: the width argument of the first fixed-width read (the cell count)
-	for _, cl := range callsTo(r, bocPath+".readNBytesUIntFromArray") {
-		if sizeV == nil {
-			sizeV = stripConv(cl.Call.Args[0])
+	// (read with the unexported helpers of parseBocHeader inlined: a loop of reads may sit in a helper, its
+	// width parameter standing for the argument of the call)
+	rview := c.inlineView(r, 2, func(h *ssa.Function) bool { return h.Name() == "readNBytesUIntFromArray" })
+	widthOf := func(vi vinstr) ssa.Value {
+		v, _ := resolveDeep(vi.in.(*ssa.Call).Call.Args[0], vi.cx)
+		return stripConv(v)
+	}
+	for _, vi := range rview {
+		if cl, ok := vi.in.(*ssa.Call); ok && callQName(&cl.Call) == bocPath+".readNBytesUIntFromArray" && sizeV == nil {
+			sizeV = widthOf(vi)
 		}
 	}
 	// offsetBytes := int(boc[0]) right after the size check: the Convert of a byte load that is not sizeBytes
 	var rseq []string
 	first := true
-	allInstrs(r, func(b *ssa.BasicBlock, in ssa.Instruction) {
+	for _, vi := range rview {
+		in := vi.in
+		b := in.Block()
 		cl, ok := in.(*ssa.Call)
 		if !ok || callQName(&cl.Call) != bocPath+".readNBytesUIntFromArray" {
-			return
+			continue
 		}
-		wv := cl.Call.Args[0]
+		wv := widthOf(vi)
 		loop := ""
-		if inLoop(b) {
+		if inLoop(b) || inLoop(vi.top().Block()) {
 			loop = "*"
 		}
 		switch {
@@ -388,13 +397,13 @@ func (c *Ctx) bocHeaderAgreement() {
 				}
 				if wv == offV {
 					rseq = append(rseq, "OFF"+loop)
-					return
+					continue
 				}
 			}
 			rseq = append(rseq, "?"+loop)
 		}
 		first = false
-	})
+	}
 	rgot := strings.Join(rseq, " ")
 	rwant := "SIZE SIZE SIZE OFF SIZE* OFF*"
 	c.check(rgot == rwant, R, "reader consumption sequence", r.Pos(), "cells, roots, absent (size bytes), tot_cells_size (off bytes), roots*, index*", "parseBocHeader reads the counters as ["+rgot+"]; the scheme order is ["+rwant+"] (cells, roots, absent with size bytes; tot_cells_size with off_bytes; root list; index)")
